@@ -423,6 +423,9 @@ def main(rep, tier):
             payload = dict(module="c01", func=smp["harness"], kwargs=smp["kwargs"], native_kwargs=nk, ordered=smp["values"].get("__order__", []))
             r = run_native("ch", "replay_path", payload)
             vals = dict(shape=shape, skip_default=sd, info=json.dumps(smp["info"], default=repr), replay=r.get("detail", ""))
+            if isinstance(smp["info"], dict) and "routes" in smp["info"]:
+                # the distinct differences over all routes: a finding pinned on `details` covers a sample only if it shows nothing else
+                vals["details"] = " | ".join(sorted({str(d) for _, d in smp["info"]["routes"]}))
             if not r.get("reproduced"):
                 rep.inconc(f"counterexample of class {cls} on {shape}/skip_default={sd} did not reproduce through the real text: {smp['info']} -> {r}")
                 continue
